@@ -65,14 +65,28 @@ def edge_tree(rng, depth, counter):
                 kids.append(("T", rng.choice(["x", "a b", "<", "y z"])))
             elif r < 0.85:
                 kids.append(("H", rng.choice(["<u>h</u>", "h"])))
-            elif r < 0.93:
+            elif r < 0.91:
                 kids.append(("R", "<em>r</em>"))
+            elif r < 0.95:
+                kids.append(("F",))          # a self-rendering object whose _repr_html_() raises
             else:
                 kids.append(("M", None))
     return ("G", name, ws, [], kids)
 
 
-TOK = re.compile(r"(\x01 *)|(</?[a-z0-9]+/?>)|([^<\x01]+|<)")
+# layout whitespace = the sentinel eol followed by indentation, OR a bare run of two or more
+# spaces (indentation emitted without an eol); text leaves of edge trees hold single spaces only
+TOK = re.compile(r"(\x01 *| {2,})|(</?[a-z0-9]+/?>)|((?:[^< \x01]| (?! ))+|<)")
+
+
+def build_edge(d):
+    from ..faults import FaultyRepr
+    from htmltools import Tag
+    if d[0] == "F":
+        return FaultyRepr()
+    if d[0] == "G":
+        return Tag(d[1], *[build_edge(k) for k in d[4]], _add_ws=d[2])
+    return build(d)
 
 
 def edges_ok(out: str) -> str | None:
@@ -81,13 +95,15 @@ def edges_ok(out: str) -> str | None:
         return t.startswith("<") and len(t) > 1 and (t.strip("</>").startswith("b") and t.strip("</>") != "br"
                                                      or t.strip("</>") == "hr")
     for idx, t in enumerate(toks):
-        if not t.startswith(SENT):
+        def is_ws(x):
+            return x.startswith(SENT) or (len(x) >= 2 and x.strip(" ") == "")
+        if not is_ws(t):
             continue
         j = idx - 1
-        while j >= 0 and toks[j].startswith(SENT):
+        while j >= 0 and is_ws(toks[j]):
             j -= 1
         k = idx + 1
-        while k < len(toks) and toks[k].startswith(SENT):
+        while k < len(toks) and is_ws(toks[k]):
             k += 1
         before = toks[j] if j >= 0 else None
         after = toks[k] if k < len(toks) else None
@@ -174,8 +190,8 @@ def run(ctx: Ctx) -> None:
     # whitespace only at the edges of whitespace-enabled tags (implementation only)
     for _ in range(ctx.budget(2500, 40000)):
         d = edge_tree(rng, rng.choice([1, 2, 3, 4]), [0])
-        out = safe_call(lambda: build(d).get_html_string(0, SENT))
-        ctx.count(("edges", d), d[2] or not inline_only(d), "edge tree")
+        out = safe_call(lambda: build_edge(d).get_html_string(0, SENT))
+        ctx.count(("edges", d), d[2] or "'F'" in repr(d) or not inline_only(d), "edge tree")
         if out[0] == "ok":
             msg = edges_ok(out[1])
             if msg:
